@@ -82,9 +82,32 @@ def overlay_render(jinja2, cfg, src):
         return "X:" + type(e).__name__
 
 
+def subset_overlay_render(ctx, jinja2, cfg, src):
+    """overlay overriding a random non-empty subset of the option groups, from a used or unused parent"""
+    names = list(L.OPTION_GROUPS)
+    groups = [g for g in names if ctx.rng.random() < 0.4] or [ctx.rng.choice(names)]
+    used = ctx.rng.random() < 0.7
+    ck = ("subset", cfg.key(), tuple(groups), used)
+    try:
+        if ck not in _used:
+            _used[ck] = L.overlay_subset_env(jinja2, cfg, ctx.rng, groups=groups, used=used)[0]
+        ov = _used[ck]
+    except Exception as e:
+        return "X:" + type(e).__name__, "?"
+    try:
+        return "D " + ov.from_string(src).render(), "%s parent, overlay(%s)" % ("used" if used else "unused", "+".join(groups))
+    except jinja2.TemplateSyntaxError:
+        return "ERR", "%s parent, overlay(%s)" % ("used" if used else "unused", "+".join(groups))
+    except Exception as e:
+        return "X:" + type(e).__name__, "%s parent, overlay(%s)" % ("used" if used else "unused", "+".join(groups))
+
+
 def check_plain(ctx, jinja2, cfg, src, model_p=None):
     """oracle on one plain source; returns failure text or None"""
     want = spec_plain(src, cfg.nl, cfg.keep)
+    got, how = subset_overlay_render(ctx, jinja2, cfg, src)
+    if got != "D " + want:
+        return "%s renders %r != spec_plain %r" % (how, got, want)
     got = real_render(jinja2, cfg, src)
     if got != "D " + want:
         return "render %r != spec_plain %r" % (got, want)
@@ -94,10 +117,24 @@ def check_plain(ctx, jinja2, cfg, src, model_p=None):
     return None
 
 
+INVISIBLE = ["\ufeff", "\u200b", "\u2060", "\xad", "\ufffe", "\x00", "\u200e", "\u2028", "\x85"]
+
+
+def invisible_texts():
+    """every invisible / format character at the first, a middle and the last position of several texts"""
+    out = []
+    for ch in INVISIBLE:
+        for base in ["", "a", "ab", "a\nb", "x\r\n", "\n", " a "]:
+            for pos in sorted({0, len(base) // 2, len(base)}):
+                out.append(base[:pos] + ch + base[pos:])
+            out.append(ch + base + ch)
+    return out
+
+
 def rand_text(rng, n, unicode_=True):
     pool = ["a", "b", " ", "\t", "\n", "\r", "\r\n", "{", "}", "%", "#", "-", "+", "\x0b", "\x0c", "\x00", "\x1c"]
     if unicode_:
-        pool += ["é", " ", " ", "\x85", " ", "中", "\U0001F600", "　"]
+        pool += INVISIBLE + ["é", " ", " ", "\x85", " ", "中", "\U0001F600", "　"]
     return "".join(rng.choice(pool) for _ in range(n))
 
 
@@ -149,6 +186,12 @@ def run(ctx):
         for keep in (False, True):
             c = L.Cfg("default", nl=nl, keep=keep)
             for s in L.all_strings(ALPHA, Lo):
+                if not has_start(c, s):
+                    ocases.append((c, s))
+    for s in invisible_texts():
+        for nl in NLS:
+            for keep in (False, True):
+                c = L.Cfg(ctx.rng.choice(["default", "default", "angle", "line"]), nl=nl, keep=keep)
                 if not has_start(c, s):
                     ocases.append((c, s))
     for name in ("angle", "dollar", "line"):
@@ -409,6 +452,17 @@ def replay(ctx, data):
             return
     if case.get("kind", "plain") == "plain" and not has_start(c, src):
         w = check_plain(ctx, jinja2, c, src)
+        if not w:
+            # every single-group and the newline+keep overlay, from a used parent
+            for groups in [[g] for g in L.OPTION_GROUPS] + [["newline", "keep"]]:
+                ov = L.overlay_subset_env(jinja2, c, ctx.rng, groups=groups, used=True)[0]
+                try:
+                    got = "D " + ov.from_string(src).render()
+                except Exception as e:
+                    got = "X:" + type(e).__name__
+                if got != "D " + spec_plain(src, c.nl, c.keep):
+                    w = "used parent, overlay(%s) renders %r != spec_plain %r" % ("+".join(groups), got, spec_plain(src, c.nl, c.keep))
+                    break
         print("spec_plain  :", repr(spec_plain(src, c.nl, c.keep)))
         if w:
             ctx.reject(case, w, data.get("signature"))
